@@ -120,4 +120,63 @@ theorem civilOfDays_daysOfCivil (y m d : Nat) (hy : 1 ≤ y) (hm1 : 1 ≤ m) (hm
   · exact inv_mar_dec y 8 d (by omega) hd1 (by omega) (by omega)
   · exact inv_mar_dec y 9 d (by omega) hd1 (by omega) (by omega)
 
+/-! ## DateTime → Unix time → DateTime -/
+
+/-- valid dates of the years 1..9999 lie at or before day 3652364 (9999-12-31) -/
+theorem daysOfCivil_le (y m d : Nat) (hy1 : 1 ≤ y) (hy : y ≤ 9999) (hm1 : 1 ≤ m) (hm2 : m ≤ 12) (hd1 : 1 ≤ d)
+    (hd : d ≤ 31) : daysOfCivil y m d ≤ 3652364 := by
+  unfold daysOfCivil
+  simp only []
+  by_cases h : m ≤ 2
+  · have h' : ¬ m > 2 := by omega
+    simp only [h, h', if_true, if_false]
+    have := Nat.div_add_mod (y - 1) 400
+    omega
+  · have h' : m > 2 := by omega
+    simp only [h, h', if_true, if_false]
+    have := Nat.div_add_mod y 400
+    omega
+
+theorem daysInMonth_le (y m : Nat) : daysInMonth y m ≤ 31 := by
+  unfold daysInMonth; split <;> (try split) <;> omega
+
+/-- civil date-time → seconds → civil date-time is the identity on every valid date-time -/
+theorem fieldsOfSecondsZ_secondsZ (f : Fields) (h : f.Valid) : fieldsOfSecondsZ (secondsZ f) = f := by
+  obtain ⟨a1, a2, a3, a4, a5, a6, a7, a8, a9⟩ := h
+  rw [fieldsOfSecondsZ_eq]
+  have hs : secondsZ f / 86400 = daysOfCivil f.year f.month f.day := by unfold secondsZ; omega
+  have hr : secondsZ f % 86400 = f.hour * 3600 + f.minute * 60 + f.second := by unfold secondsZ; omega
+  rw [hs, hr, civilOfDays_daysOfCivil _ _ _ a1 a3 a4 a5 a6]
+  cases f
+  simp only [Fields.mk.injEq] at *
+  refine ⟨trivial, trivial, trivial, ?_, ?_, ?_⟩ <;> omega
+
+/-- DateTime → Unix time → DateTime is the identity in a zone `off` seconds east of UTC whenever
+`timestamp()` succeeds: no further hypothesis (the range checks of `fromtimestamp` follow from those `timestamp()` made) -/
+theorem fromTimestamp_timestamp (off : Int) (v : Nat) (t : Int) (h : timestamp off v = .ok t) :
+    fromTimestamp off t = .ok v := by
+  unfold timestamp at h
+  simp only [] at h
+  split at h
+  case isFalse => cases h
+  case isTrue hv =>
+    split at h
+    case isFalse => cases h
+    case isTrue hy =>
+      simp only [Except.ok.injEq] at h
+      obtain ⟨a1, a2, a3, a4, a5, a6, a7, a8, a9⟩ := hv
+      have hub := daysOfCivil_le _ _ _ a1 a2 a3 a4 a5 (Nat.le_trans a6 (daysInMonth_le _ _))
+      simp only [yearOk, Bool.and_eq_true, decide_eq_true_eq] at hy
+      have hsec : secondsZ (fields v) = daysOfCivil (fields v).year (fields v).month (fields v).day * 86400 +
+          (fields v).hour * 3600 + (fields v).minute * 60 + (fields v).second := rfl
+      have hs : t + off + (epochZ * 86400 : Nat) = (secondsZ (fields v) : Int) := by omega
+      unfold fromTimestamp
+      simp only [hs]
+      have y1 : yearOk ((secondsZ (fields v) : Nat) : Int) = true := by
+        simp only [yearOk, Bool.and_eq_true, decide_eq_true_eq]; omega
+      have y2 : yearOk (((secondsZ (fields v) : Nat) : Int) - 86400) = true := by
+        simp only [yearOk, Bool.and_eq_true, decide_eq_true_eq]; omega
+      simp only [y1, y2, Bool.and_self, if_true, Int.toNat_natCast,
+        fieldsOfSecondsZ_secondsZ _ ⟨a1, a2, a3, a4, a5, a6, a7, a8, a9⟩, make_fields]
+
 end Nx.Nex.DateTime
